@@ -237,12 +237,19 @@ class SimSocket(object):
         if not of.backlog:
             if self._timeout == 0.0 or s is None:
                 raise _err(errno.EAGAIN)
-            ok = s.block(lambda: bool(of.backlog) or of.closed or self._closed, self._deadline(), "sock.accept.wait", of.name)
-            deliver_signals()
-            if self._closed or of.closed:
-                raise _err(errno.EBADF)
-            if not ok or not of.backlog:
-                raise _real_socket.timeout("timed out")
+            dl = self._deadline()
+            me = current_proc()
+            while True:
+                # a signal interrupts the blocked call (EINTR); CPython runs the handler and retries (PEP 475)
+                ok = s.block(lambda: bool(of.backlog) or of.closed or self._closed or bool(me.pending), dl, "sock.accept.wait", of.name)
+                had = bool(me.pending)
+                deliver_signals()
+                if self._closed or of.closed:
+                    raise _err(errno.EBADF)
+                if of.backlog:
+                    break
+                if not ok or not had:
+                    raise _real_socket.timeout("timed out")
         cof = of.backlog.pop(0)
         conn = SimSocket(self.family, self.type, self.proto, _of=cof)
         return conn, cof.peer_addr
